@@ -3,7 +3,7 @@
    (what the code does) and C08/Spec.v (what a valid file is; wf_state). *)
 From Coq Require Import List NArith ZArith Bool String Ascii Permutation Reals.
 From T4V Require Import Base.Str C08.Model C08.Spec C08.ProofsSets C08.ProofsWrite C08.ProofsPrune
-     C08.ProofsTail C08.SurfEq C08.Parse C08.ProofsChars C08.ProofsParse C08.ProofsGiven C08.ProofsEnd C08.CheckText C08.Check C08.ProofsRefute C08.LinkC01a C08.LinkC01.
+     C08.ProofsTail C08.SurfEq C08.Parse C08.ProofsChars C08.ProofsParse C08.ProofsGiven C08.ProofsEnd C08.CheckText C08.Check C08.ProofsRefute C08.LinkC01a C08.LinkC01b C08.LinkC01.
 Import ListNotations.
 
 (* VolumeT4.__str__: for EVERY volume (no hypothesis), each declared count equals the
@@ -224,6 +224,25 @@ Theorem C08_convert_wf_linked :
                  Forall finite (state_numbers w) -> Forall finite (file_numbers f)).
 Proof. exact convert_wf_linked. Qed.
 Print Assumptions C08_convert_wf_linked.
+
+(* ... and the surface numbers too (C08/LinkC01b.v, again an induction over C01's model:
+   pot_expand_surfs puts only numbers of `matching` into the tree, pot_optimise keeps leaves,
+   conv_equa / the helper equations / the stand-in volume use their absolute values and the
+   helper ids): "surface numbers of the volumes are entries of the surface dictionary" is now
+   asked of `matching` (the output of number_items) and of the helper ids only *)
+Theorem C08_convert_wf_surfaces_linked :
+  forall fuel cells matching u0 u1 todo cnt0 s' skip_dedup (w : wstate (spayload R)),
+  M1.convert_cells fuel cells matching u0 u1 todo (M1.mkSt cnt0 [] [] []) = M1.Ok s' ->
+  w_vols w = tr_table (M1.vols s') ->
+  stage0_rest2 u0 u1 matching w ->
+  exists o, convert_tail Req_payload skip_dedup u0 u1 w = Ok o /\
+    (o = Died false [] EValue \/
+     exists f, (o = Complete f \/ exists e, o = Raised f e) /\
+               wf_file f /\ parse_t4 (print_t4 f) = Some f /\
+               forall finite : string -> Prop,
+                 Forall finite (state_numbers w) -> Forall finite (file_numbers f)).
+Proof. exact convert_wf_linked_surfaces. Qed.
+Print Assumptions C08_convert_wf_surfaces_linked.
 
 (* ---- open defects: a composition that is named but not written.  The hypothesis cell_named
    (s0_cells / ws_cells) of the theorems above cannot be dropped: with closed tables, a cell
